@@ -477,6 +477,7 @@ def c15(tier):
             f.write('property: C15\n' + body)
         paths.append(p)
     try:
+        os.environ['VERIF_CASE_CPU_S'] = '7200'      # one C15 case performs thousands of complete saves
         return V.generic_pbt('C15', tier, n_quick=48, n_thorough=1600, size_quick=40, size_thorough=70, level='fault_enumeration', floor=20, extra_cases=paths,
                              shards_quick=16, shards_thorough=16,
                              assumptions=['faults: missing directory, path through a file, directory as target, read-only file (effective uid dropped), /dev/full, RLIMIT_FSIZE=k with SIGXFSZ ignored',
